@@ -3,12 +3,12 @@ package main
 // Per-function verification: entry state, loop cutting, postconditions, lock balance, model extraction.
 
 import (
-	"regexp"
-	"os"
-	"runtime"
 	"fmt"
 	"go/ast"
 	"go/types"
+	"os"
+	"regexp"
+	"runtime"
 	"sort"
 	"strings"
 	"time"
@@ -17,19 +17,19 @@ import (
 )
 
 type FnResult struct {
-	Func        string        `json:"func"`
-	File        string        `json:"file"`
-	Paths       int           `json:"paths"`
-	Loops       int           `json:"loops"`
-	LoopsWithInv int          `json:"loops_with_invariant"`
-	Obligations []*Obligation `json:"obligations"`
-	Unsupported []string      `json:"unsupported,omitempty"`
-	Notes       []string      `json:"notes,omitempty"`
-	Vacuous     bool          `json:"vacuous_precondition,omitempty"`
-	WallMs      float64       `json:"wall_ms"`
-	Canary      string        `json:"canary,omitempty"`
-	Covers      map[string]bool `json:"covers,omitempty"`
-	ReachableReturns int        `json:"reachable_return_paths"`
+	Func             string          `json:"func"`
+	File             string          `json:"file"`
+	Paths            int             `json:"paths"`
+	Loops            int             `json:"loops"`
+	LoopsWithInv     int             `json:"loops_with_invariant"`
+	Obligations      []*Obligation   `json:"obligations"`
+	Unsupported      []string        `json:"unsupported,omitempty"`
+	Notes            []string        `json:"notes,omitempty"`
+	Vacuous          bool            `json:"vacuous_precondition,omitempty"`
+	WallMs           float64         `json:"wall_ms"`
+	Canary           string          `json:"canary,omitempty"`
+	Covers           map[string]bool `json:"covers,omitempty"`
+	ReachableReturns int             `json:"reachable_return_paths"`
 }
 
 type ModelInputs struct {
